@@ -355,8 +355,8 @@ class Verdict:
         self.cov["traces_validated_against_impl"] += stats["consumed"]
         self.cov["tv_runs"].append({"trace_spec": name, "records": stats["consumed"], "wall_s": round(stats["wall"], 1)})
 
-    def known_finding(self, fid, what, example=None):
-        k = self.known.setdefault(fid, [0, what, example])
+    def known_finding(self, fid, what, example=None, props=None):
+        k = self.known.setdefault(fid, [0, what, example, props])
         k[0] += 1
 
     def violation(self, summary, replay_obj):
@@ -372,7 +372,7 @@ class Verdict:
         cov = self.cov
         cov["rule"] = rule
         cov["exhaustive"] = exhaustive
-        cov["known_findings_seen"] = [{"finding": k, "cases": v[0], "what": v[1], "example": v[2]} for k, v in sorted(self.known.items())]
+        cov["known_findings_seen"] = [{"finding": k, "cases": v[0], "what": v[1], "example": v[2], "properties": v[3]} for k, v in sorted(self.known.items())]
         if extra:
             cov.update(extra)
         if not cov["samples"]:
@@ -383,9 +383,11 @@ class Verdict:
         os.makedirs(os.path.join(ROOT, "evidence"), exist_ok=True)
         with open(os.path.join(ROOT, "evidence", "%s.json" % self.prop), "w") as f:
             json.dump(ev, f, indent=1)
-        for fid, (n, what, ex) in sorted(self.known.items()):
+        for fid, (n, what, ex, props) in sorted(self.known.items()):
+            # a finding is reported under the property it violates (it can surface in another property's check)
+            p = self.prop if (not props or self.prop in props) else props[0]
             print("KNOWN-FINDING: property=%s %s %s (%d case%s%s)" % (
-                self.prop, fid, what, n, "" if n == 1 else "s", ("; e.g. " + json.dumps(ex)[:300]) if ex is not None else ""))
+                p, fid, what, n, "" if n == 1 else "s", ("; e.g. " + json.dumps(ex)[:300]) if ex is not None else ""))
         seen = set()
         for summary, path in self.violations[:20]:
             print("VIOLATION property=%s replay=%s %s" % (self.prop, path, summary[:400]))
